@@ -1,9 +1,9 @@
 ------------------------- MODULE MC_PatternSemantics -------------------------
-(* A reference semantics for numeric time patterns (format and parse over digits)   *)
+(* A reference semantics for numeric time patterns (format: PatternFormat; parse here) *)
 (* on which TLC checks the round-trip law for every pattern of up to 3 tokens and a    *)
 (* grid of values: Representable => Parse(Format(v)) = v.  This is the law the real     *)
 (* patterns are then held to.                                                            *)
-EXTENDS PatternSemantics, TLC
+EXTENDS PatternFormat, TLC
 VARIABLES toks, v
 Alphabet == {"HH", "H", "mm", "m", "ss", "fff", ":", "."}
 Pats == UNION {[1..n -> Alphabet] : n \in 1..3}
@@ -13,29 +13,25 @@ NoRepeat(t) == \A i, j \in 1..Len(t) : i # j /\ t[i] \in Numeric /\ t[j] \in Num
 Init == toks \in {t \in Pats : NoRepeat(t) /\ Delimited(t)} /\ v \in Vals
 Next == UNCHANGED <<toks, v>>
 Spec == Init /\ [][Next]_<<toks, v>>
-\* format: digits as a sequence of small integers (0..9), separators as 10 (":") and 11 (".")
-D2(x) == <<x \div 10, x % 10>>
-D1(x) == IF x < 10 THEN <<x>> ELSE D2(x)
-Fmt(t) == CASE t = "HH" -> D2(v.h) [] t = "H" -> D1(v.h) [] t = "mm" -> D2(v.mi) [] t = "m" -> D1(v.mi) [] t = "ss" -> D2(v.s)
-            [] t = "fff" -> LET ms == v.n \div 1000000 IN <<ms \div 100, (ms \div 10) % 10, ms % 10>> [] t = ":" -> <<10>> [] t = "." -> <<11>>
-RECURSIVE FormatFrom(_)
-FormatFrom(i) == IF i > Len(toks) THEN <<>> ELSE Fmt(toks[i]) \o FormatFrom(i + 1)
-Text == FormatFrom(1)
+\* format: the shared reference formatter (PatternFormat.tla), in the invariant culture; the text is a sequence of code points
+Inv == [tsep |-> <<58>>, dsep |-> <<47>>, am |-> <<65, 77>>, pm |-> <<80, 77>>]
+Text == FormatFields(toks, 1, v, Inv)
 \* parse: each numeric token reads its digits greedily (up to its maximum width), separators must match
-IsDig(x) == x <= 9
+IsDig(x) == x >= 48 /\ x <= 57
+Dv(x) == x - 48
 RECURSIVE ParseFrom(_, _, _)
 ParseFrom(i, pos, acc) ==
   IF i > Len(toks) THEN (IF pos = Len(Text) + 1 THEN acc ELSE [acc EXCEPT !.ok = FALSE])
   ELSE LET t == toks[i] IN
        IF t \in {":", "."}
-       THEN IF pos <= Len(Text) /\ Text[pos] = (IF t = ":" THEN 10 ELSE 11) THEN ParseFrom(i + 1, pos + 1, acc) ELSE [acc EXCEPT !.ok = FALSE]
+       THEN IF pos <= Len(Text) /\ Text[pos] = (IF t = ":" THEN 58 ELSE 46) THEN ParseFrom(i + 1, pos + 1, acc) ELSE [acc EXCEPT !.ok = FALSE]
        ELSE LET maxw == IF t = "fff" THEN 3 ELSE 2
                 minw == IF t \in {"HH", "mm", "ss"} THEN 2 ELSE IF t = "fff" THEN 3 ELSE 1
                 w == IF pos + 1 <= Len(Text) /\ IsDig(Text[pos]) /\ IsDig(Text[pos + 1]) /\ maxw >= 2
                      THEN (IF maxw = 3 /\ pos + 2 <= Len(Text) /\ IsDig(Text[pos + 2]) THEN 3 ELSE 2)
                      ELSE IF pos <= Len(Text) /\ IsDig(Text[pos]) THEN 1 ELSE 0
-                val == IF w = 3 THEN Text[pos] * 100 + Text[pos + 1] * 10 + Text[pos + 2]
-                       ELSE IF w = 2 THEN Text[pos] * 10 + Text[pos + 1] ELSE IF w = 1 THEN Text[pos] ELSE 0
+                val == IF w = 3 THEN Dv(Text[pos]) * 100 + Dv(Text[pos + 1]) * 10 + Dv(Text[pos + 2])
+                       ELSE IF w = 2 THEN Dv(Text[pos]) * 10 + Dv(Text[pos + 1]) ELSE IF w = 1 THEN Dv(Text[pos]) ELSE 0
             IN  IF w < minw THEN [acc EXCEPT !.ok = FALSE]
                 ELSE ParseFrom(i + 1, pos + w,
                        CASE t \in {"HH", "H"} -> [acc EXCEPT !.h = val] [] t \in {"mm", "m"} -> [acc EXCEPT !.mi = val]
